@@ -121,15 +121,20 @@ def _parms(d):
                          bytes(v) if isinstance(v, (bytes, bytearray)) else v) for k, v in d.items()))
 
 
-def drive(kind, fragments, close_at_end=False, maxmsgs=4, method="GET", close_first=False, close_after=None):
-    """feed fragments to a fresh Requestant / Respondent; returns (list of message snapshots, leftover bytes, exc)"""
+def drive(kind, fragments, close_at_end=False, maxmsgs=4, method="GET", close_first=False, close_after=None, rebuf=False):
+    """feed fragments to a fresh Requestant / Respondent; returns (list of message snapshots, leftover bytes, exc)
+    rebuf: the parser object is built over another buffer and handed the (still empty) receive buffer afterwards with
+    makeParser(msg=...), before any byte arrives"""
     msg = bytearray()
+    first = bytearray() if rebuf else msg
     if kind == "req":
-        p = serving.Requestant(msg=msg, remoter=SimpleNamespace(tymeout=1.0))
+        p = serving.Requestant(msg=first, remoter=SimpleNamespace(tymeout=1.0))
         snap = snap_requestant
     else:
-        p = clienting.Respondent(msg=msg, method=method)
+        p = clienting.Respondent(msg=first, method=method)
         snap = snap_respondent
+    if rebuf:
+        p.makeParser(msg=msg)
     results = []
     exc = None
     recorded = [False]
